@@ -3,7 +3,9 @@
 /*@ capture-end cap_o=o:int cap_size=(int)(sizeof(coeff)/sizeof(coeff[0])):int */
 /*@ clause pre.array src=call-site */
 __CPROVER_requires(__CPROVER_rw_ok(c, (nC1_ + 1) * sizeof(double)))
-/*@ clause frame src=property props=C14,C13 */
+/*@ clause frame src=property props=C14,C13 only=enforce */
 __CPROVER_assigns(__CPROVER_object_upto(c, (nC1_ + 1) * sizeof(double)), cap_o, cap_size)
-/*@ clause post.table_consumed src=code-comment props=C01,C13 */
+/*@ clause frame.caller src=property only=replace */
+__CPROVER_assigns(__CPROVER_object_upto(c, (nC1_ + 1) * sizeof(double)))
+/*@ clause post.table_consumed src=code-comment props=C01,C13 only=enforce */
 __CPROVER_ensures(cap_o == cap_size)
